@@ -57,8 +57,9 @@ Lemma narrowed_index_1d_write_accepted_refuted_l :
 Proof. split; [cbn [in_range]; lia|]. split; vm_compute; reflexivity. Qed.
 
 Lemma member_rank3_in_range_rejected_refuted_l :
-  exists dims idxs, in_range dims idxs /\ forall m, resolve AMember m dims (size dims) idxs = inr EBounds.
-Proof. exists [2; 2; 3], [0; 0; 0]. split; [cbn [in_range]; lia|]. intros []; reflexivity. Qed.
+  exists dims idxs, in_range dims idxs /\ resolve AMember Rd dims (size dims) idxs = inr EBounds /\
+                    resolve AMember Wr dims (size dims) idxs = inl 0.
+Proof. exists [2; 2; 3], [0; 0; 0]. split; [cbn [in_range]; lia|]. split; reflexivity. Qed.
 
 Lemma pointer_stays_inside_array_l : forall ak dims base ops s, wf dims s ->
   wf dims (snd (run_checked ak dims base ops s)) /\ wf dims (snd (run_plain ak dims base ops s)).
